@@ -501,10 +501,10 @@ func (ov *OV) literal(t *rapid.T) string {
 
 // CustomOpt is the model of one custom option setting on an element: extension o.<kind>_cfg etc.
 type CustomOpt struct {
-	Ext   string // e.g. "o.file_cfg"
-	Kind  string // "cfg", "i", "rs", "c", "rcfg", "src"
-	Cfg   []*OV  // for cfg (1) / rcfg (n)
-	Scal  []SV   // for i, c, src (1) / rs (n)
+	Ext  string // e.g. "o.file_cfg"
+	Kind string // "cfg", "i", "rs", "c", "rcfg", "src"
+	Cfg  []*OV  // for cfg (1) / rcfg (n)
+	Scal []SV   // for i, c, src (1) / rs (n)
 	// Stmts are the option statements that spell this value.
 	Stmts []Opt
 }
